@@ -10,6 +10,7 @@ def main():
         job = json.load(f)
     from .core import Ctx, load_prop
     ctx = Ctx(job["prop"], job["tier"], job["seed"], job["index"])
+    ctx.shard = job["shard"]
     try:
         from . import boot
         boot.boot()
